@@ -214,8 +214,76 @@ class ExactPosition(int, Position):
         return self.__class__(length - int(self))
 
 
+class SFuzzy(SInt):
+    """a symbolic coordinate that is a BeforePosition ('<5') or an AfterPosition ('>5'): as in Biopython only
+    `position + offset` keeps the kind, every other arithmetic gives a plain integer"""
+    __slots__ = ("kind",)
+
+    def __init__(self, e, kind):
+        SInt.__init__(self, e)
+        self.kind = kind
+
+    def __add__(self, offset):
+        if not isinstance(offset, (int, SInt)):
+            return NotImplemented
+        return _fuzzy(self.kind, SInt.__add__(self, offset))
+
+    def __radd__(self, other):
+        return SInt.__add__(self, other)
+
+    def _flip(self, length):
+        return _fuzzy("after" if self.kind == "before" else "before", length - SInt(self.e))
+
+
+class _FuzzyConcrete(int, Position):
+    kind = None
+
+    def __new__(cls, position, extension=0):
+        if extension != 0:
+            raise AttributeError("Non-zero extension %s for a fuzzy position." % extension)
+        if isinstance(position, SInt):
+            return SFuzzy(position.e, cls.kind)
+        return int.__new__(cls, position)
+
+    def __add__(self, offset):
+        if isinstance(offset, SInt):
+            return _fuzzy(self.kind, int(self) + offset)
+        return self.__class__(int(self) + offset)
+
+    def _flip(self, length):
+        return _fuzzy("after" if self.kind == "before" else "before", length - int(self))
+
+
+class BeforePosition(_FuzzyConcrete):
+    kind = "before"
+
+    def __repr__(self):
+        return "BeforePosition(%i)" % int(self)
+
+
+class AfterPosition(_FuzzyConcrete):
+    kind = "after"
+
+    def __repr__(self):
+        return "AfterPosition(%i)" % int(self)
+
+
+def _fuzzy(kind, value):
+    if isinstance(value, SInt):
+        return SFuzzy(value.e, kind)
+    return (BeforePosition if kind == "before" else AfterPosition)(int(value))
+
+
+def position_kind(p):
+    """'exact' | 'before' | 'after' for model and Biopython positions alike"""
+    k = getattr(p, "kind", None)
+    if k in ("before", "after"):
+        return k
+    return {"BeforePosition": "before", "AfterPosition": "after"}.get(type(p).__name__, "exact")
+
+
 def _pos_flip(p, length):
-    if isinstance(p, ExactPosition):
+    if isinstance(p, (ExactPosition, _FuzzyConcrete, SFuzzy)):
         return p._flip(length)
     return length - p
 
